@@ -24,7 +24,7 @@ let step (p : 'a prog) (show : 'a -> string) =
     (match r with Inl a -> out (show a) | Inr e -> out ("throw " ^ err_name e))
 
 let dec_open kind data =
-  let data = if kind = "un" then [] else data in
+  let data = if kind = "un" || kind = "nx" || kind = "dir" then [] else data in
   g_dec := Some (phys_init data);
   g_fuel := nat_of_int (List.length data + 2);
   out "ok"
